@@ -1,9 +1,11 @@
 #!/bin/bash
-# MANIFEST.setup_cmd: build the analyser offline and warm the Go build cache
-# (export data of /repo's dependencies) so that quick checks take seconds.
+# MANIFEST.setup_cmd: build the analyser offline and warm caches (Go export data of /repo's
+# dependencies; clang record layouts of felix/bpf-gpl) so that quick checks take seconds.
 set -eu
 cd "$(dirname "$0")"
 . ./env.sh
 mkdir -p bin evidence
 (cd tools/calint && go build -o ../../bin/calint .)
 bin/calint -warm || true
+# pre-compute the C layouts (cached by content hash of every input)
+bin/calint -prop C13 -tier quick -repo /repo -verif "$(pwd)" >/dev/null 2>&1 || true
